@@ -318,6 +318,9 @@ Section Api.
     | None => w
     | Some sr =>
         if s_armed sr then
+          (* a task source is disarmed while its thread has not finished: the thread still owns a pointer to the source and its
+             descriptor (known finding D10): the model leaves its domain *)
+          let w := if skind_eqb (s_kind sr) KTask && Nat.eqb (s_pending sr) 0 then emit w (TFault 7) else w in
           let w1 := if opens_fd (s_kind sr) then set_fds w (w_fds w - 1) else w in
           (* expirations / notifications die with the internal descriptor; a pending signal stays pending in the process *)
           upd_src w1 s (src_with false (match s_kind sr with KSgn => s_pending sr | _ => 0 end) false)
@@ -907,6 +910,10 @@ Section Api.
     let w4 := match w_tls w3 with
               | Some c => match c_tick c with Some t => poll_rm w3 t | None => w3 end
               | None => w3 end in
+    (* m_thpool_free(&c->thpool, false) waits for the task bodies that are running: every unfinished task completes here
+       (its completion event stays pending for the next loop) *)
+    let w4 := set_srcs w4 (map (fun s => if skind_eqb (s_kind s) KTask && s_armed s && Nat.eqb (s_pending s) 0
+                                         then src_with true 1 (s_shot s) s else s) (w_srcs w4)) in
     let w5 := upd_ctx w4 (fun c => ctx_with_recv 0 (ctx_with_maxev 0 c)) in
     match w_tls w5 with
     | Some c =>
@@ -1004,6 +1011,9 @@ Section Api.
                     | _ => (w1, 0)
                     end
                 | k =>
+                    (* the source was paused and resumed earlier in this batch: its internal descriptor is a new one and has nothing
+                       to read (the reported readiness is stale); the consume call fails with EAGAIN and the event is skipped *)
+                    if negb (skind_eqb k KFd) && Nat.eqb (s_pending s) 0 then (w0, 0) else
                     let pay := match k with
                                | KFd => EFd (s_key s) | KTmr => ETmr (s_key s) | KSgn => ESgn (s_key s)
                                | KPath => EPath (s_key s) | KPid => EPid (s_key s) | KTask => ETask (s_key s)
